@@ -375,18 +375,17 @@ theorem bcPass_below (P : Problem) (s : State) (st : BcStatus) (s' : State) (h :
 
 /-! ### Part 2: the search (`cons = bc`) -/
 
-/-- the effect of one `solve_one` call on the counters (`a` before, `b` after, `found` = a solution
-    was returned):
+/-- the effect of a search on the counters (`a` before, `b` after, `n` = number of solutions it
+    returned; for one `solve_one` call `n` is 0 or 1, for the `solve()` generator any number):
 
     * the four shaving counters do not move, every other counter only grows;
+    * `solution`   : ΔSOLUTION = n;
     * `passes`     : ΔBC = ΔCHOICE + ΔBACKTRACK + 1 — every pass but the last is followed by a
-                     choice or a successful backtrack;
-    * `solution`   : ΔSOLUTION = 1 if a solution was returned, 0 otherwise;
-    * `failures`   : ΔINCONSISTENCY = ΔBACKTRACK + (0 if a solution was returned, else 1) — every
-                     inconsistent pass is followed by a backtrack, except the one that exhausts the
-                     search;
+                     choice or by a successful backtrack;
+    * `failures`   : ΔINCONSISTENCY + n = ΔBACKTRACK + 1 — a backtrack follows every inconsistent
+                     pass and every solution, except the very last event of the search;
     * the conservation laws of the passes add up. -/
-structure SolveOneLaw (a b : Stats) (found : Bool) : Prop where
+structure SearchLaw (a b : Stats) (n : Nat) : Prop where
   bcShaving : b.bcShaving = a.bcShaving
   shaving : b.shaving = a.shaving
   shavingChange : b.shavingChange = a.shavingChange
@@ -399,37 +398,45 @@ structure SolveOneLaw (a b : Stats) (found : Bool) : Prop where
   choice : a.choice ≤ b.choice
   depth : a.depth ≤ b.depth
   passes : b.bc + a.choice + a.backtrack = a.bc + b.choice + b.backtrack + 1
-  solution : b.solution = a.solution + (if found then 1 else 0)
-  failures : b.inconsistency + a.backtrack + (if found then 1 else 0) = a.inconsistency + b.backtrack + 1
+  solution : b.solution = a.solution + n
+  failures : b.inconsistency + a.backtrack + n = a.inconsistency + b.backtrack + 1
   conservation : b.filterNoChange + b.inconsistency + a.filter ≤ b.filter + a.filterNoChange + a.inconsistency
   entailment_le : b.entailment + a.filter ≤ b.filter + a.entailment
 
-theorem SolveOneLaw.of_bound {a m : Stats} (L : PassLaw a m .bound) :
-    SolveOneLaw a { m with solution := m.solution + 1 } true := by
+theorem SearchLaw.of_bound {a m : Stats} (L : PassLaw a m .bound) :
+    SearchLaw a { m with solution := m.solution + 1 } 1 := by
   obtain ⟨h1, h2, h3, h4, h5, h6, h7, h8, h9, h10, h11, h12, h13, h14, h15⟩ := L
   simp only [reduceCtorEq, if_false] at h13
-  constructor <;> (try simp only [if_true]) <;> omega
+  constructor <;> simp only <;> omega
 
-theorem SolveOneLaw.of_exhausted {a m : Stats} (L : PassLaw a m .inconsistent) : SolveOneLaw a m false := by
+theorem SearchLaw.of_exhausted {a m : Stats} (L : PassLaw a m .inconsistent) : SearchLaw a m 0 := by
   obtain ⟨h1, h2, h3, h4, h5, h6, h7, h8, h9, h10, h11, h12, h13, h14, h15⟩ := L
   simp only [if_true] at h13
-  constructor <;> (try simp only [Bool.false_eq_true, if_false]) <;> omega
+  constructor <;> omega
 
-theorem SolveOneLaw.of_choice {a m b : Stats} {found : Bool} (k : Nat) (L : PassLaw a m .unbound)
-    (ih : SolveOneLaw { m with choice := m.choice + 1, depth := max m.depth k } b found) :
-    SolveOneLaw a b found := by
+theorem SearchLaw.of_choice {a m b : Stats} {n : Nat} (k : Nat) (L : PassLaw a m .unbound)
+    (ih : SearchLaw { m with choice := m.choice + 1, depth := max m.depth k } b n) :
+    SearchLaw a b n := by
   obtain ⟨h1, h2, h3, h4, h5, h6, h7, h8, h9, h10, h11, h12, h13, h14, h15⟩ := L
   obtain ⟨i1, i2, i3, i4, i5, i6, i7, i8, i9, i10, i11, i12, i13, i14, i15, i16⟩ := ih
   simp only [reduceCtorEq, if_false] at h13
   simp only at i1 i2 i3 i4 i5 i6 i7 i8 i9 i10 i11 i12 i13 i14 i15 i16
   constructor <;> omega
 
-theorem SolveOneLaw.of_backtrack {a m b : Stats} {found : Bool} (L : PassLaw a m .inconsistent)
-    (ih : SolveOneLaw { m with backtrack := m.backtrack + 1 } b found) :
-    SolveOneLaw a b found := by
+theorem SearchLaw.of_backtrack {a m b : Stats} {n : Nat} (L : PassLaw a m .inconsistent)
+    (ih : SearchLaw { m with backtrack := m.backtrack + 1 } b n) :
+    SearchLaw a b n := by
   obtain ⟨h1, h2, h3, h4, h5, h6, h7, h8, h9, h10, h11, h12, h13, h14, h15⟩ := L
   obtain ⟨i1, i2, i3, i4, i5, i6, i7, i8, i9, i10, i11, i12, i13, i14, i15, i16⟩ := ih
   simp only [if_true] at h13
+  simp only at i1 i2 i3 i4 i5 i6 i7 i8 i9 i10 i11 i12 i13 i14 i15 i16
+  constructor <;> omega
+
+/-- a search that found a solution, the backtrack of the generator's resumption, another search -/
+theorem SearchLaw.seq {a m b : Stats} {n : Nat} (L : SearchLaw a m 1)
+    (ih : SearchLaw { m with backtrack := m.backtrack + 1 } b n) : SearchLaw a b (n + 1) := by
+  obtain ⟨h1, h2, h3, h4, h5, h6, h7, h8, h9, h10, h11, h12, h13, h14, h15, h16⟩ := L
+  obtain ⟨i1, i2, i3, i4, i5, i6, i7, i8, i9, i10, i11, i12, i13, i14, i15, i16⟩ := ih
   simp only at i1 i2 i3 i4 i5 i6 i7 i8 i9 i10 i11 i12 i13 i14 i15 i16
   constructor <;> omega
 
@@ -449,7 +456,7 @@ theorem consPass_bc (P : Problem) (cfg : Config) (hc : cfg.cons = .bc) (s : Stat
 /-- C17 for one `solve_one` call -/
 theorem solveOne_stats (P : Problem) (cfg : Config) (hc : cfg.cons = .bc) :
     ∀ (fuel : Nat) (s : State) (r : Option (List Int)) (s' : State),
-      solveOne P cfg fuel s = .ok (r, s') → SolveOneLaw s.stats s'.stats r.isSome
+      solveOne P cfg fuel s = .ok (r, s') → SearchLaw s.stats s'.stats (if r.isSome then 1 else 0)
   | 0, _, _, _, h => by simp [solveOne] at h
   | fuel + 1, s, r, s', h => by
     simp only [solveOne, consPass_bc P cfg hc] at h
@@ -465,7 +472,7 @@ theorem solveOne_stats (P : Problem) (cfg : Config) (hc : cfg.cons = .bc) :
         | bound =>
           simp only at h
           injection h with h; injection h with h1 h2; subst h1; subst h2
-          exact SolveOneLaw.of_bound L
+          exact SearchLaw.of_bound L
         | unbound =>
           simp only at h
           split at h
@@ -477,15 +484,179 @@ theorem solveOne_stats (P : Problem) (cfg : Config) (hc : cfg.cons = .bc) :
               · cases h
               · rename_i b _
                 have ih := solveOne_stats P cfg hc fuel _ r s' h
-                exact SolveOneLaw.of_choice _ L ih
+                exact SearchLaw.of_choice _ L ih
         | inconsistent =>
           simp only at h
           split at h
           · injection h with h; injection h with h1 h2; subst h1; subst h2
-            exact SolveOneLaw.of_exhausted L
+            exact SearchLaw.of_exhausted L
           · rename_i s2 hb
             have ih := solveOne_stats P cfg hc fuel s2 r s' h
             rw [(backtrack_stats P s1 s2 hb).1] at ih
-            exact SolveOneLaw.of_backtrack L ih
+            exact SearchLaw.of_backtrack L ih
+
+/-- C17 for the `solve()` generator (run until `limit + 1` solutions have been taken or the search
+    is exhausted): with `n` the number of solutions returned, `SearchLaw` holds with that `n` -/
+theorem solveAll_stats (P : Problem) (cfg : Config) (hc : cfg.cons = .bc) (fuel1 : Nat) :
+    ∀ (fuel limit : Nat) (s : State) (acc sols : List (List Int)) (s' : State),
+      solveAll P cfg fuel1 fuel (limit + 1) s acc = .ok (sols, s') →
+      ∃ n, n ≤ limit + 1 ∧ sols.length = acc.length + n ∧ SearchLaw s.stats s'.stats n
+  | 0, _, _, _, _, _, h => by simp [solveAll] at h
+  | fuel + 1, limit, s, acc, sols, s', h => by
+    simp only [solveAll] at h
+    cases hso : solveOne P cfg fuel1 s with
+    | error e => rw [hso] at h; simp at h
+    | ok x =>
+      obtain ⟨r, s1⟩ := x
+      have L := solveOne_stats P cfg hc fuel1 s r s1 hso
+      rw [hso] at h
+      cases r with
+      | none =>
+        simp only at h
+        injection h with h; injection h with h1 h2; subst h1; subst h2
+        exact ⟨0, by omega, by simp, L⟩
+      | some sol =>
+        simp only at h
+        have L1 : SearchLaw s.stats s1.stats 1 := L
+        split at h
+        · injection h with h; injection h with h1 h2; subst h1; subst h2
+          exact ⟨1, by omega, by simp, L1⟩
+        · rename_i hl
+          split at h
+          · injection h with h; injection h with h1 h2; subst h1; subst h2
+            exact ⟨1, by omega, by simp, L1⟩
+          · rename_i s2 hb
+            obtain ⟨l, rfl⟩ : ∃ l, limit = l + 1 := ⟨limit - 1, by omega⟩
+            obtain ⟨n, hn, hlen, ih⟩ := solveAll_stats P cfg hc fuel1 fuel l s2 (sol :: acc) sols s' h
+            rw [(backtrack_stats P s1 s2 hb).1] at ih
+            exact ⟨n + 1, by omega, by rw [hlen]; simp; omega, SearchLaw.seq L1 ih⟩
+
+/-- asking for no solution does nothing -/
+theorem solveAll_zero (P : Problem) (cfg : Config) (fuel1 fuel : Nat) (s : State) (acc : List (List Int)) :
+    solveAll P cfg fuel1 (fuel + 1) 0 s acc = .ok (acc.reverse, s) := rfl
+
+/-! ### DEPTH: the greatest stack height reached -/
+
+/-- ghost: the stack heights reached by the choices of one `solve_one` call, in order (same
+    recursion as `solveOne`) -/
+def solveOneHeights (P : Problem) (cfg : Config) : Nat → State → List Nat
+  | 0, _ => []
+  | fuel + 1, s =>
+    if s.below.length + 1 ≥ cfg.height then [] else
+    match consPass P cfg s with
+    | .error _ => []
+    | .ok (.bound, _) => []
+    | .ok (.unbound, s1) =>
+      if s1.below.length + 2 ≥ cfg.height then [] else
+      match runVarHeur cfg.varH cfg.varCosts cfg.decision s1.top.doms with
+      | none => []
+      | some none => []
+      | some (some d) =>
+        match runDomHeur cfg.domH cfg.domCosts s1.top d with
+        | none => []
+        | some b =>
+          let s2 := s1.push b
+          let s3 := { s2 with
+            trig := addProps P s2.trig s2.top.ne d b.events
+            stats := { s2.stats with choice := s2.stats.choice + 1, depth := max s2.stats.depth s2.below.length } }
+          s2.below.length :: solveOneHeights P cfg fuel s3
+    | .ok (.inconsistent, s1) =>
+      match backtrack P s1 with
+      | none => []
+      | some s2 => solveOneHeights P cfg fuel s2
+
+/-- CHOICE counts the choices, DEPTH is the maximum of its old value and of the stack heights
+    reached by these choices -/
+theorem solveOne_depth (P : Problem) (cfg : Config) (hc : cfg.cons = .bc) :
+    ∀ (fuel : Nat) (s : State) (r : Option (List Int)) (s' : State),
+      solveOne P cfg fuel s = .ok (r, s') →
+      s'.stats.depth = (solveOneHeights P cfg fuel s).foldl max s.stats.depth ∧
+      s'.stats.choice = s.stats.choice + (solveOneHeights P cfg fuel s).length
+  | 0, _, _, _, h => by simp [solveOne] at h
+  | fuel + 1, s, r, s', h => by
+    simp only [solveOne, consPass_bc P cfg hc] at h
+    simp only [solveOneHeights, consPass_bc P cfg hc]
+    by_cases hh : s.below.length + 1 ≥ cfg.height
+    · rw [if_pos hh] at h; cases h
+    · rw [if_neg hh] at h ⊢
+      cases hp : bcPass P s with
+      | error e => rw [hp] at h; simp at h
+      | ok x =>
+        obtain ⟨st, s1⟩ := x
+        have L := bcPass_law P s st s1 hp
+        rw [hp] at h
+        cases st with
+        | bound =>
+          simp only at h ⊢
+          injection h with h; injection h with h1 h2; subst h1; subst h2
+          exact ⟨L.depth, by simpa using L.choice⟩
+        | unbound =>
+          simp only at h ⊢
+          by_cases hh2 : s1.below.length + 2 ≥ cfg.height
+          · rw [if_pos hh2] at h; cases h
+          · rw [if_neg hh2] at h ⊢
+            cases hv : runVarHeur cfg.varH cfg.varCosts cfg.decision s1.top.doms with
+            | none => rw [hv] at h; cases h
+            | some o =>
+              cases o with
+              | none => rw [hv] at h; cases h
+              | some d =>
+                rw [hv] at h
+                simp only at h ⊢
+                cases hd : runDomHeur cfg.domH cfg.domCosts s1.top d with
+                | none => rw [hd] at h; cases h
+                | some b =>
+                  rw [hd] at h
+                  simp only at h ⊢
+                  have ih := solveOne_depth P cfg hc fuel _ r s' h
+                  rw [ih.1, ih.2]
+                  simp only [State.push, List.foldl_cons, List.length_cons, L.depth, L.choice]
+                  exact ⟨trivial, by omega⟩
+        | inconsistent =>
+          simp only at h ⊢
+          cases hb : backtrack P s1 with
+          | none =>
+            rw [hb] at h
+            simp only at h ⊢
+            injection h with h; injection h with h1 h2; subst h1; subst h2
+            exact ⟨L.depth, by simpa using L.choice⟩
+          | some s2 =>
+            rw [hb] at h
+            simp only at h ⊢
+            have ih := solveOne_depth P cfg hc fuel s2 r s' h
+            rw [ih.1, ih.2, (backtrack_stats P s1 s2 hb).1]
+            simp only [L.depth, L.choice]
+            exact ⟨trivial, trivial⟩
+
+/-! ### non-vacuity: the hypotheses are met by concrete runs, and the laws can be read off -/
+
+/-- x, y ∈ [0,5], x + y ≤ 4, x ≤ y -/
+def c17Example : Problem :=
+  ⟨[(0, 5), (0, 5)], [(0, 0), (1, 0)],
+   [⟨.affineLeq, [(0, 0), (1, 0)], [1, 1, 4]⟩, ⟨.maxLeq, [(0, 0), (1, 0)], []⟩]⟩
+
+/-- the root pass executes constraint 0 (which prunes) and then constraint 1 (which does not) -/
+example : bcTrace pickProp c17Example (bcFuel c17Example (State.init c17Example)) none (State.init c17Example).bumpBc
+    = [⟨0, .cons, true, false⟩, ⟨1, .cons, false, false⟩] := by decide
+
+example : ∃ s', bcPass c17Example (State.init c17Example) = .ok (.unbound, s') ∧
+    s'.stats.bc = 1 ∧ s'.stats.filter = 2 ∧ s'.stats.filterNoChange = 1 ∧ s'.stats.inconsistency = 0 :=
+  ⟨_, rfl, rfl, rfl, rfl, rfl⟩
+
+/-- x + y ≤ 4 and x + y ≥ 9: the second execution fails, INCONSISTENCY = 1 -/
+def c17Example2 : Problem :=
+  ⟨[(0, 5), (0, 5)], [(0, 0), (1, 0)],
+   [⟨.affineLeq, [(0, 0), (1, 0)], [1, 1, 4]⟩, ⟨.affineGeq, [(0, 0), (1, 0)], [1, 1, 9]⟩]⟩
+
+example : ∃ s', bcPass c17Example2 (State.init c17Example2) = .ok (.inconsistent, s') ∧
+    s'.stats.filter = 2 ∧ s'.stats.filterNoChange = 0 ∧ s'.stats.inconsistency = 1 :=
+  ⟨_, rfl, rfl, rfl, rfl⟩
+
+/-- the whole search of the first example: 9 solutions, 17 passes = 8 choices + 8 backtracks + 1,
+    0 inconsistencies + 9 solutions = 8 backtracks + 1 -/
+example : ∃ sols s', solveAll c17Example { decision := [0, 1] } 100 100 100 (State.init c17Example) [] = .ok (sols, s') ∧
+    sols.length = 9 ∧ s'.stats.solution = 9 ∧ s'.stats.bc = 17 ∧ s'.stats.choice = 8 ∧ s'.stats.backtrack = 8 ∧
+    s'.stats.inconsistency = 0 ∧ s'.stats.depth = 2 :=
+  ⟨_, _, rfl, rfl, rfl, rfl, rfl, rfl, rfl, rfl⟩
 
 end Nucs
